@@ -241,7 +241,19 @@ func applyInjection(d *gen.Doc, k, site, variant int) *injection {
 			c := &d.Conds[ci]
 			for pi := range c.Params {
 				if idx == site {
-					c.Params = append(c.Params, gen.Param{Name: c.Params[pi].Name, Type: "int"})
+					dup := gen.Param{Name: c.Params[pi].Name, Type: "int"}
+					switch variant % 4 {
+					case 1: // the repeated declaration is a container type
+						dup = gen.Param{Name: c.Params[pi].Name, Type: []string{"list", "map"}[(variant/4)%2], Generic: "string"}
+					case 2: // exactly the same declaration again
+						dup = c.Params[pi]
+					case 3: // repeated right after the original instead of at the end
+						c.Params = append(c.Params[:pi+1], append([]gen.Param{{Name: c.Params[pi].Name, Type: "bool"}}, c.Params[pi+1:]...)...)
+						inj.posKey = fmt.Sprintf("param:%02d:%02d", ci, pi+1)
+						inj.msgHint = []string{"already defined"}
+						return inj
+					}
+					c.Params = append(c.Params, dup)
 					inj.posKey = fmt.Sprintf("param:%02d:%02d", ci, len(c.Params)-1)
 					inj.msgHint = []string{"already defined"}
 					return inj
